@@ -34,7 +34,9 @@ impl Engine for CombEngine {
 
 impl CombEngine {
     pub fn eval_case(&self, case: &crate::spec::Case, trace: bool) -> Eval {
+        crate::driver::phase_begin();
         let mut out = if case.storm { run_case_storm(case, cfg!(feature = "cfg-std"), trace) } else { run_case(case, cfg!(feature = "cfg-std"), trace) };
+        crate::driver::phase_mark();
         if case.fair_polls > 5_000 || case.root.children.len() > 5_000 {
             // the functional oracles are quadratic in the length of a run
             oracle::check_trace_fairness_only(&mut out.world);
